@@ -1,0 +1,33 @@
+//go:build verif
+
+// Copyright 2025 NVIDIA CORPORATION
+// SPDX-License-Identifier: Apache-2.0
+
+package controllers
+
+import (
+	"k8s.io/apimachinery/pkg/runtime"
+	"sigs.k8s.io/controller-runtime/pkg/client"
+
+	"github.com/NVIDIA/KAI-scheduler/pkg/queuecontroller/controllers/childqueues_updater"
+	"github.com/NVIDIA/KAI-scheduler/pkg/queuecontroller/controllers/resource_updater"
+)
+
+// NewQueueReconcilerForVerif builds a QueueReconciler exactly as SetupWithManager does, without a
+// manager: the two updaters are unexported fields that SetupWithManager alone initialises. The
+// caller registers the field indexes (common.ParentQueueIndexName, common.PodGroupQueueIndexName)
+// on its client with VerifIndexQueueByParent / VerifIndexPodGroupByQueue.
+func NewQueueReconcilerForVerif(c client.Client, scheme *runtime.Scheme) *QueueReconciler {
+	return &QueueReconciler{
+		Client:             c,
+		Scheme:             scheme,
+		resourceUpdater:    resource_updater.ResourceUpdater{Client: c},
+		childQueuesUpdater: childqueues_updater.ChildQueuesUpdater{Client: c},
+	}
+}
+
+// VerifIndexQueueByParent is the real indexer function registered by SetupWithManager.
+func VerifIndexQueueByParent(o client.Object) []string { return indexQueueByParent(o) }
+
+// VerifIndexPodGroupByQueue is the real indexer function registered by SetupWithManager.
+func VerifIndexPodGroupByQueue(o client.Object) []string { return indexPodGroupByQueue(o) }
